@@ -294,6 +294,8 @@ let () =
       match split_ws head with
       | [id; "kv"; kind; fail_at; mode] when kind = "plain" || kind = "batched" -> run_kv id kind fail_at mode body
       | id :: "crash" :: _ -> Printf.printf "%s crash ok\n" id
+      | [id; "nhfail"; store; mode; _] when (store = "pebble" || store = "tan") && (mode = "srs" || mode = "ss") ->
+        Printf.printf "%s nhfail ok\n" id
       | [id; "crashtorn"; kind; mlfs; _] when (kind = "tan" || kind = "tanmux")
           && (try int_of_string mlfs >= 0 with _ -> false) -> Printf.printf "%s crashtorn ok\n" id
       | [id; "crashseq"; kind; mlfs] when (kind = "tan" || kind = "tanmux" || kind = "plain" || kind = "batched")
